@@ -1,5 +1,6 @@
 import Proofs.C16Fit
 import Proofs.C16Spec
+import Proofs.C16Uniq
 /-!
 C16 — MSM estimator equals its function pipeline, round-trips, has a sound spectrum.
 
@@ -258,18 +259,86 @@ theorem eig_post_leading_is_one {n : Nat} (T : Matrix (Fin n) (Fin n) ℝ)
     · rw [e]
     · exact (List.pairwise_cons.mp hfull).1 1 hm
 
-/-- "The" stationary distribution: full statement (irreducible chains), not asserted here —
-it is the Perron–Frobenius uniqueness theorem, which this development does not prove. -/
+/-- "The" stationary distribution: full statement for irreducible chains (every state reaches
+every state: some power of `T` has a positive `(i, j)` entry) — the uniqueness part of the
+Perron–Frobenius theorem.  Proved below as `stationary_unique`. -/
 def C16_stationary_unique_full : Prop :=
   ∀ (n : Nat) (T : Matrix (Fin n) (Fin n) ℝ), (∀ i j, 0 ≤ T i j) → (∀ i, ∑ j, T i j = 1) →
     (∀ i j, ∃ k : Nat, 0 < (T ^ k) i j) →
     ∀ v w : Fin n → ℝ, Matrix.vecMul v T = v → Matrix.vecMul w T = w →
       ∑ i, v i = 1 → ∑ i, w i = 1 → v = w
 
-/-- Proved part: for an entrywise positive row-stochastic matrix the left fixed vector with unit
-sum is unique, so the normalised leading left eigenvector is *the* stationary distribution.
-Missing for the full statement: the passage from `T > 0` to irreducible `T` (some power of
-`(I+T)/2` is positive). -/
+/-- The full statement holds: for an irreducible non-negative matrix with unit row sums the left
+fixed vector with unit sum is unique (no sign assumption on the vectors, no aperiodicity), so
+the normalised leading left eigenvector `eigenspectrum` returns is *the* stationary
+distribution.  Elementary proof (`Proofs/C16Uniq.lean`): `|u|` of a fixed vector `u` is a fixed
+vector; a non-negative fixed vector is zero or everywhere positive; so a fixed vector with zero
+sum is zero. -/
+theorem stationary_unique : C16_stationary_unique_full :=
+  fun _ T hnn hrow hirr v w hv hw sv sw => stationary_unique_irred T hnn hrow hirr v w hv hw sv sw
+
+/-- the same with irreducibility stated on the transition graph: every state reaches every
+state along transitions of positive probability -/
+theorem stationary_unique_paths {n : Nat} (T : Matrix (Fin n) (Fin n) ℝ) (hnn : ∀ i j, 0 ≤ T i j)
+    (hrow : ∀ i, ∑ j, T i j = 1)
+    (hirr : ∀ i j, Relation.ReflTransGen (fun a b => 0 < T a b) i j)
+    (v w : Fin n → ℝ) (hv : Matrix.vecMul v T = v) (hw : Matrix.vecMul w T = w)
+    (sv : ∑ i, v i = 1) (sw : ∑ i, w i = 1) : v = w :=
+  stationary_unique_irred T hnn hrow (fun i j => pow_pos_of_path T hnn i j (hirr i j)) v w hv hw sv sw
+
+/-- the two formulations of irreducibility are the same hypothesis -/
+theorem irreducible_iff_paths {n : Nat} (T : Matrix (Fin n) (Fin n) ℝ) (hnn : ∀ i j, 0 ≤ T i j) :
+    (∀ i j, ∃ k : Nat, 0 < (T ^ k) i j) ↔
+      ∀ i j, Relation.ReflTransGen (fun a b => 0 < T a b) i j :=
+  ⟨fun h i j => (h i j).elim fun k hk => path_of_pow_pos T hnn k i j hk,
+   fun h i j => pow_pos_of_path T hnn i j (h i j)⟩
+
+/-- and that unique unit-sum fixed vector is a probability distribution with full support:
+every entry is strictly positive -/
+theorem stationary_positive {n : Nat} (T : Matrix (Fin n) (Fin n) ℝ) (hnn : ∀ i j, 0 ≤ T i j)
+    (hrow : ∀ i, ∑ j, T i j = 1) (hirr : ∀ i j, ∃ k : Nat, 0 < (T ^ k) i j)
+    (v : Fin n → ℝ) (hv : Matrix.vecMul v T = v) (sv : ∑ i, v i = 1) : ∀ j, 0 < v j :=
+  stationary_pos_irred T hnn hrow hirr v hv sv
+
+/-- non-vacuity: the 3-cycle `0 → 1 → 2 → 0` is row-stochastic and irreducible (both
+formulations) but has zero entries (and is periodic), so `stationary_unique_partial` does not
+apply to it; its unit-sum fixed vector is the uniform one -/
+example :
+    let T : Matrix (Fin 3) (Fin 3) ℝ := !![0, 1, 0; 0, 0, 1; 1, 0, 0]
+    (∀ i j, 0 ≤ T i j) ∧ (∀ i, ∑ j, T i j = 1) ∧ (∀ i j, ∃ k : Nat, 0 < (T ^ k) i j) ∧
+    (∀ i j, Relation.ReflTransGen (fun a b => 0 < T a b) i j) ∧ ¬ (∀ i j, 0 < T i j) ∧
+    Matrix.vecMul (![1/3, 1/3, 1/3] : Fin 3 → ℝ) T = ![1/3, 1/3, 1/3] ∧
+    ∑ i, (![1/3, 1/3, 1/3] : Fin 3 → ℝ) i = 1 := by
+  intro T
+  have hnn : ∀ i j, 0 ≤ T i j := by
+    intro i j; fin_cases i <;> fin_cases j <;> simp [T]
+  have e01 : (0 : ℝ) < T 0 1 := by simp [T]
+  have e12 : (0 : ℝ) < T 1 2 := by simp [T]
+  have e20 : (0 : ℝ) < T 2 0 := by simp [T]
+  have s01 : Relation.ReflTransGen (fun a b => 0 < T a b) 0 1 := .single e01
+  have s12 : Relation.ReflTransGen (fun a b => 0 < T a b) 1 2 := .single e12
+  have s20 : Relation.ReflTransGen (fun a b => 0 < T a b) 2 0 := .single e20
+  have hpaths : ∀ i j, Relation.ReflTransGen (fun a b => 0 < T a b) i j := by
+    intro i j
+    fin_cases i <;> fin_cases j
+    · exact .refl
+    · exact s01
+    · exact s01.trans s12
+    · exact s12.trans s20
+    · exact .refl
+    · exact s12
+    · exact s20
+    · exact s20.trans s01
+    · exact .refl
+  refine ⟨hnn, ?_, (irreducible_iff_paths T hnn).mpr hpaths, hpaths, ?_, ?_, ?_⟩
+  · intro i; fin_cases i <;> simp [T, Fin.sum_univ_three]
+  · intro h; have := h 0 0; simp [T] at this
+  · funext j
+    fin_cases j <;> simp [T, Matrix.vecMul, dotProduct, Fin.sum_univ_three]
+  · simp [Fin.sum_univ_three]; norm_num
+
+/-- The earlier special case (entrywise positive matrices), kept: it is the instance `k = 1` of
+the irreducibility hypothesis. -/
 theorem stationary_unique_partial {n : Nat} (T : Matrix (Fin n) (Fin n) ℝ) (hpos : ∀ i j, 0 < T i j)
     (hrow : ∀ i, ∑ j, T i j = 1) (v w : Fin n → ℝ) (hv : Matrix.vecMul v T = v)
     (hw : Matrix.vecMul w T = w) (sv : ∑ i, v i = 1) (sw : ∑ i, w i = 1) : v = w :=
